@@ -269,7 +269,36 @@ static void gen_pair(Out& out, Rng& g, bool with_lh) {
     std::vector<IPoly> ia, ib;
     std::string scen;
     auto& pool = pools.keyholes[S];
-    switch (g.below(8)) {
+    switch (g.below(9)) {
+        case 8: {
+            // three nesting levels in the result (outer contour -> hole -> island): a ring given as ONE polygon whose
+            // hole hangs on a zero-width slit, and a small island inside the hole
+            scen = "island-in-hole";
+            int64_t w = g.range(12, span / 2 + 16);
+            int64_t hx0 = w / 4, hy0 = w / 4 + g.range(0, 2), hx1 = w - w / 4, hy1 = w - w / 4;
+            IPoly ring = {{0, 0}, {w, 0}, {w, w}, {0, w}, {0, 0}, {hx0, hy0}, {hx0, hy1}, {hx1, hy1}, {hx1, hy0}, {hx0, hy0}};
+            int64_t ix0 = hx0 + std::max<int64_t>(1, w / 8), iy0 = hy0 + std::max<int64_t>(1, w / 8);
+            IPoly isl = g_rect(ix0, iy0, std::max<int64_t>(1, w / 6), std::max<int64_t>(1, w / 7));
+            random_orient(g, isl);
+            switch (g.below(3)) {
+                case 0:  // ring | island  (OR keeps both; NOT / XOR too)
+                    ia.push_back(ring);
+                    ib.push_back(isl);
+                    break;
+                case 1: {  // big square NOT (slit polygon covering the hole area minus the island)
+                    IPoly cover = {{hx0, hy0}, {hx1, hy0}, {hx1, hy1}, {hx0, hy1}, {hx0, hy0}, {ix0, iy0},
+                                   {ix0, iy0 + std::max<int64_t>(1, w / 7)}, {ix0 + std::max<int64_t>(1, w / 6), iy0 + std::max<int64_t>(1, w / 7)},
+                                   {ix0 + std::max<int64_t>(1, w / 6), iy0}, {ix0, iy0}};
+                    ia.push_back(g_rect(0, 0, w, w));
+                    ib.push_back(cover);
+                } break;
+                default:  // both on the same side, other operand far away or overlapping the wall
+                    ia.push_back(ring);
+                    ia.push_back(isl);
+                    ib.push_back(g_rect(-3, w / 2, 5, 2));
+            }
+            if (g.coin()) std::swap(ia, ib);
+        } break;
         case 0:
         case 1: {
             scen = "overlap";
